@@ -53,6 +53,9 @@ var _ io.Reader = (*seedReader)(nil)
 
 // dkgOutcome is what the client of a Generate call saw.
 type dkgOutcome struct {
+	// Prompt, set by the client task itself: what went wrong when it used the account on the participants the moment it
+	// was told the generation had succeeded (before anything else of the schedule was given a turn on its behalf).
+	Prompt       string
 	task         *Task
 	State        pb.ResponseState
 	PubKey       []byte
@@ -84,6 +87,19 @@ func (c *Cluster) spawnGenerate(n *Node, client, account string, t, parts uint32
 			return
 		}
 		out.State, out.PubKey, out.Participants, out.Message = res.GetState(), res.GetPublicKey(), res.GetParticipants(), res.GetMessage()
+		if out.State == pb.ResponseState_SUCCEEDED && c.PromptUse {
+			// The client uses the new account at once, on every participant it was told about.
+			for _, ep := range out.Participants {
+				p := c.NodeByID(ep.GetId())
+				if p == nil {
+					continue
+				}
+				if st, sig := p.partialSign(client, account, h32("prompt use", account), MkDomain([4]byte{7, 0, 0, 0}, 11)); st != pb.ResponseState_SUCCEEDED || len(sig) == 0 {
+					out.Prompt = fmt.Sprintf("%s could not sign with %s the moment the client had been told the generation succeeded (state %v)", p.Name, account, st)
+					return
+				}
+			}
+		}
 	})
 	return out
 }
@@ -427,6 +443,8 @@ func runDKG(t *testing.T, rc *RunCtx) {
 	c := NewCluster(t, rc, s, ClusterCfg{IDs: ids, Order: order, NdAccounts: 1})
 	defer c.Close()
 	initiator := c.Nodes[ch.Pick(len(c.Nodes), 0)]
+	// Half of the runs: the client signs with the new account on every participant the instant it has its answer.
+	c.PromptUse = ch.Pick(2, 0) == 1
 	// A third of the runs: clients send no passphrase of their own with their generation requests.
 	if ch.Pick(3, 0) == 2 {
 		c.OmitPassphrase = true
@@ -605,6 +623,10 @@ func runDKG(t *testing.T, rc *RunCtx) {
 			return
 		}
 		rc.Stats.Inc("successful_generations", 1)
+		if out.Prompt != "" {
+			rc.Violate("C12", "cannot-sign", out.Prompt, s.Step)
+			return
+		}
 		if outB != nil {
 			if !outB.Done || outB.State != pb.ResponseState_SUCCEEDED {
 				s.Direct(func() { c.checkGenerated("C12", path, uint32(th), parts, out, s.Step) })
